@@ -16,7 +16,7 @@ from . import csrc
 from .csrc import ExtractError
 
 FILES_COUNTER = None  # all of src/core/*.c
-FILES_ROOTS = ["ev.c", "os.c", "net.c"]
+FILES_ROOTS = ["ev.c", "os.c", "net.c", "filewatch.c"]
 
 
 def preprocess(tree, rel):
@@ -196,7 +196,7 @@ def extract(tree):
     ev = pre["ev.c"]
     fn = dict(functions(ev))
     for need in ("janet_loop_done", "janet_loop1", "janet_loop", "janet_ev_handle_selfpipe", "janet_async_end", "janet_async_start_fiber",
-                 "janet_ev_threaded_call", "janet_ev_post_event", "janet_thread_chan_cb"):
+                 "janet_ev_threaded_call", "janet_ev_post_event", "janet_thread_chan_cb", "janet_ev_init"):
         if need not in fn:
             raise ExtractError("ev.c: function %s not found" % need)
     m = re.match(r"^\{\s*return\s*!\s*\((.*)\)\s*;\s*\}$", fn["janet_loop_done"].strip(), re.S)
@@ -286,7 +286,67 @@ def extract(tree):
     if len(sp) != 1:
         raise ExtractError("janet_ev_handle_selfpipe: expected exactly one decrement of listener_count, found %d" % len(sp))
     res["selfpipe_dec_needs_cb"] = any("response.cb" in g for g in sp[0])
+    res.update(selfpipe_shape(fn))
     return res
+
+
+def selfpipe_shape(fn):
+    """Structure of the self-pipe reader and of its epoll registration (what Loop/SelfPipe.lean depends on):
+      batch = whole JanetSelfPipeEvent records fetched by one read(2) (1 for `JanetSelfPipeEvent x; read(fd, &x, sizeof(x))`,
+              N for `JanetSelfPipeEvent xs[N]; read(fd, xs, sizeof(xs))`),
+      recur = after a successful read the handler reads again (until read fails with EAGAIN): `L: … read … if (status > 0) { … goto L; }`
+              or the read sits in an endless loop that is left only through break / return,
+      edge  = the read end is registered with EPOLLET."""
+    hs = fn["janet_ev_handle_selfpipe"]
+    rd = sites(hs, r"\bread\s*\(")
+    if len(rd) != 1:
+        raise ExtractError("janet_ev_handle_selfpipe: expected exactly one read(2) call, found %d" % len(rd))
+    m, guards = rd[0]
+    args = [a.strip() for a in _split_args(_balanced_arg(hs, m.end() - 1))]
+    if len(args) != 3 or _ws(args[0]) != "janet_vm.selfpipe[0]":
+        raise ExtractError("janet_ev_handle_selfpipe: read(janet_vm.selfpipe[0], buf, size) not recognised: %r" % args)
+    buf, size = _ws(args[1]), _ws(args[2])
+    var = buf[1:] if buf.startswith("&") else buf
+    if not re.match(r"^[A-Za-z_]\w*$", var) or size != "sizeof(%s)" % var:
+        raise ExtractError("janet_ev_handle_selfpipe: buffer / size of the read not recognised: %r %r" % (buf, size))
+    dm = re.search(r"\bJanetSelfPipeEvent\s+%s\s*(\[\s*(\d+)\s*\])?\s*;" % re.escape(var), hs)
+    if not dm or bool(dm.group(1)) == buf.startswith("&"):
+        raise ExtractError("janet_ev_handle_selfpipe: declaration of the read buffer %s not recognised" % var)
+    batch = int(dm.group(2)) if dm.group(1) else 1
+    # recur: goto to a label that precedes the read, issued from the `status > 0` branch; or an endless loop around the read
+    recur = False
+    for g, gguards in sites(hs, r"\bgoto\s+(\w+)\s*;"):
+        lab = re.search(r"\b%s\s*:" % re.escape(g.group(1)), hs)
+        if lab and lab.start() < m.start() and any(re.match(r"^if\(status>0\)$", x) for x in gguards):
+            recur = True
+    if any(x in ("while(1)", "for(;;)") for x in guards) and re.search(r"\b(break|return)\s*;", hs):
+        recur = True
+    if "janet_ev_init" not in fn:
+        raise ExtractError("ev.c: function janet_ev_init not found")
+    ini = _ws(fn["janet_ev_init"])
+    em = re.search(r"ev\.events=([^;]*);ev\.data\.ptr=janet_vm\.selfpipe;", ini)
+    if not em:
+        raise ExtractError("janet_ev_init: registration of the self pipe (ev.events = …; ev.data.ptr = janet_vm.selfpipe;) not recognised")
+    flags = em.group(1).split("|")
+    if "EPOLLIN" not in flags:
+        raise ExtractError("janet_ev_init: self pipe is not registered for EPOLLIN: %r" % em.group(1))
+    return {"selfpipe_batch": batch, "selfpipe_recur": recur, "selfpipe_edge": "EPOLLET" in flags}
+
+
+def _split_args(s):
+    out, d, cur = [], 0, ""
+    for ch in s:
+        if ch in "([{":
+            d += 1
+        elif ch in ")]}":
+            d -= 1
+        if ch == "," and d == 0:
+            out.append(cur)
+            cur = ""
+        else:
+            cur += ch
+    out.append(cur)
+    return out
 
 
 def _lstr(s):
@@ -334,6 +394,12 @@ def render(tree):
     o.append("")
     o.append("/-- does janet_ev_handle_selfpipe decrement listener_count only for events with a callback? -/")
     o.append("abbrev selfpipeDecNeedsCb : Bool := %s" % ("true" if r["selfpipe_dec_needs_cb"] else "false"))
+    o.append("")
+    o.append("/-- janet_ev_handle_selfpipe / janet_ev_init: whole events fetched by one read(2); does the handler read again after every successful read "
+             "(until EAGAIN)?; is the read end registered edge-triggered (EPOLLET)? -/")
+    o.append("abbrev selfpipeBatch : Nat := %d" % r["selfpipe_batch"])
+    o.append("abbrev selfpipeRecur : Bool := %s" % ("true" if r["selfpipe_recur"] else "false"))
+    o.append("abbrev selfpipeEdge : Bool := %s" % ("true" if r["selfpipe_edge"] else "false"))
     o.append("")
     o.append("end JanetModel.Gen.Loop")
     return "\n".join(o) + "\n"
